@@ -315,7 +315,10 @@ fn run_polls<'s, 't>(c: &mut Case, g: &mut Gen, t: &'t Tree, client: &mut SpvCli
 		}
 		if t.get(after).work < t.get(before).work {
 			if triggered.is_empty() && hidden.is_empty() { c.rec.oracle_fail(describe("listener moved to a tip with less work without any source failure", c)); }
-			else { stats.lower_work_after_interrupt += 1; if stats.lower_work_example.is_none() { stats.lower_work_example = Some(describe("interrupted reorg left the listener at the fork point (less work than before)", c)); } }
+			else { stats.lower_work_after_interrupt += 1;
+				// known finding KF-C20-1 (see /verif/known_findings.txt): reported once per run with a concrete input
+				if stats.lower_work_example.is_none() { c.rec.oracle_fail(describe("KF-C20-1 interrupted reorg: a source error after blocks_disconnected leaves the listener and chain_tip at the fork point, a tip with LESS work than before the poll", c)); }
+				if stats.lower_work_example.is_none() { stats.lower_work_example = Some(describe("interrupted reorg left the listener at the fork point (less work than before)", c)); } }
 		}
 		// ---- record -------------------------------------------------------------------------
 		let fork_depth = down as usize;
@@ -462,7 +465,7 @@ fn main() {
 	let mut g = Gen { rng: &mut rng };
 	let mut stats = Stats { lower_work_after_interrupt: 0, lower_work_example: None, max_fork_depth: 0, cache_miss_walks: 0 };
 	let limit = HEADER_CACHE_LIMIT as u64;
-	let (n_small, n_medium, n_deep) = if args.thorough { (120_000 * args.scale, 3_000 * args.scale, 150 * args.scale) } else { (4_000 * args.scale, 200 * args.scale, 8 * args.scale) };
+	let (n_small, n_medium, n_deep) = if args.thorough { (400_000 * args.scale, 8_000 * args.scale, 300 * args.scale) } else { (24_000 * args.scale, 1_000 * args.scale, 30 * args.scale) };
 	let max_depth = if args.thorough { 40 } else { 12 };
 	// (1) small random trees: fork depths 0..max_depth, equal-work ties, heavier-but-shorter forks
 	for _ in 0..n_small {
